@@ -36,6 +36,7 @@
 #define ENTRIES_PER_SUMMARY_MIN         (SAMPLE_DECIMATE_FACTOR_MIN)
 #define SUMMARY_DECIMATE_FACTOR_MIN     (SAMPLE_DECIMATE_FACTOR_MIN)
 #define F64_BUF_LENGTH_MIN (1 << 16)
+#define PAYLOAD_SIZE_MAX (1ULL << 30)  // largest data or summary payload accepted for a definition, in bytes
 #define SIGNAL_MASK  (0x0fff)
 #define TAU_F (6.283185307179586f)
 
@@ -88,7 +89,7 @@ static inline uint32_t u32_max(uint32_t a, uint32_t b) {
     return (a > b) ? a : b;
 }
 
-static uint32_t round_up_to_multiple(uint32_t x, uint32_t m) {
+static uint64_t round_up_to_multiple(uint64_t x, uint64_t m) {
     return ((x + m - 1) / m) * m;
 }
 
@@ -214,15 +215,29 @@ int32_t jls_core_signal_def_align(struct jls_signal_def_s * def) {
     uint8_t sample_size = jls_datatype_parse_size(def->data_type);
     uint32_t samples_per_data_multiple = (SAMPLE_SIZE_BYTES_MAX * 8) / sample_size;
 
-    uint32_t sample_decimate_factor = u32_max(def->sample_decimate_factor, SAMPLE_DECIMATE_FACTOR_MIN);
-    sample_decimate_factor = round_up_to_multiple(sample_decimate_factor, samples_per_data_multiple);
+    // compute in 64 bits: rounding up values near UINT32_MAX must not wrap around
+    uint64_t sample_decimate_factor_u64 = u32_max(def->sample_decimate_factor, SAMPLE_DECIMATE_FACTOR_MIN);
+    sample_decimate_factor_u64 = round_up_to_multiple(sample_decimate_factor_u64, samples_per_data_multiple);
 
-    uint32_t samples_per_data = u32_max(def->samples_per_data, SAMPLES_PER_DATA_MIN);
-    uint32_t entries_per_summary = u32_max(def->entries_per_summary, ENTRIES_PER_SUMMARY_MIN);
+    uint64_t samples_per_data_u64 = u32_max(def->samples_per_data, SAMPLES_PER_DATA_MIN);
+    uint64_t entries_per_summary_u64 = u32_max(def->entries_per_summary, ENTRIES_PER_SUMMARY_MIN);
     uint32_t summary_decimate_factor = u32_max(def->summary_decimate_factor, SUMMARY_DECIMATE_FACTOR_MIN);
 
-    entries_per_summary = round_up_to_multiple(entries_per_summary, summary_decimate_factor);
-    samples_per_data = round_up_to_multiple(samples_per_data, sample_decimate_factor);
+    entries_per_summary_u64 = round_up_to_multiple(entries_per_summary_u64, summary_decimate_factor);
+    samples_per_data_u64 = round_up_to_multiple(samples_per_data_u64, sample_decimate_factor_u64);
+
+    // a data block and a summary chunk must fit comfortably in a chunk payload
+    if ((samples_per_data_u64 > UINT32_MAX) || (((samples_per_data_u64 * sample_size) / 8) > PAYLOAD_SIZE_MAX)) {
+        JLS_LOGW("samples_per_data too big");
+        return JLS_ERROR_PARAMETER_INVALID;
+    }
+    if ((entries_per_summary_u64 * (JLS_SUMMARY_FSR_COUNT * sizeof(double))) > PAYLOAD_SIZE_MAX) {
+        JLS_LOGW("entries_per_summary too big");
+        return JLS_ERROR_PARAMETER_INVALID;
+    }
+    uint32_t sample_decimate_factor = (uint32_t) sample_decimate_factor_u64;
+    uint32_t samples_per_data = (uint32_t) samples_per_data_u64;
+    uint32_t entries_per_summary = (uint32_t) entries_per_summary_u64;
     uint32_t entries_per_data = samples_per_data / sample_decimate_factor;
 
     while (entries_per_summary != ((entries_per_summary / entries_per_data) * entries_per_data)) {
